@@ -187,4 +187,77 @@ theorem insertByDepth_sorted (m : String) (l : List String)
       · omega
       · exact hl.1 y hy'
 
+/-- the pairs of point `i` in a list of entries, in file order -/
+def pairsOf (i : Int) (es : List (Int × List String)) : List String := (es.filter (fun e => e.1 == i)).flatMap (·.2)
+
+theorem pairsOf_cons (i : Int) (e : Int × List String) (rest : List (Int × List String)) :
+    pairsOf i (e :: rest) = (if e.1 == i then e.2 else []) ++ pairsOf i rest := by
+  unfold pairsOf
+  by_cases h : e.1 == i <;> simp [List.filter_cons, h]
+
+theorem pairsOf_of_not_any (i : Int) (es : List (Int × List String)) (h : es.any (fun e => e.1 == i) = false) : pairsOf i es = [] := by
+  unfold pairsOf
+  have : es.filter (fun e => e.1 == i) = [] := by
+    rw [List.filter_eq_nil_iff]
+    intro e he hh
+    have := List.any_eq_false.mp h e he
+    exact this hh
+  rw [this]; rfl
+
+theorem group_step_get (acc : List (Int × List String)) (e : Int × List String) (i : Int) :
+    Dict.get? i (groupStep acc e) =
+    if i = e.1 then some (((Dict.get? i acc).getD []) ++ e.2) else Dict.get? i acc := by
+  unfold groupStep
+  by_cases h : i = e.1
+  · subst h
+    cases hg : Dict.get? e.1 acc with
+    | none => simp [Dict.get?_set_self]
+    | some ps => simp [Dict.get?_set_self]
+  · cases hg : Dict.get? e.1 acc with
+    | none => simp [h, Dict.get?_set_ne _ _ _ _ h]
+    | some ps => simp [h, Dict.get?_set_ne _ _ _ _ h]
+
+theorem group_fold_get (es : List (Int × List String)) : ∀ (acc : List (Int × List String)) (i : Int),
+    Dict.get? i (es.foldl groupStep acc) =
+    if (es.any (fun e => e.1 == i)) then some (((Dict.get? i acc).getD []) ++ pairsOf i es) else Dict.get? i acc := by
+  induction es with
+  | nil => intro acc i; simp
+  | cons e rest ih =>
+    intro acc i
+    rw [List.foldl_cons, ih, group_step_get, pairsOf_cons, List.any_cons]
+    by_cases h : i = e.1
+    · subst h
+      have hb : (e.1 == e.1) = true := by simp
+      rw [if_pos rfl, hb]
+      simp only [Bool.true_or, if_true, Option.getD_some]
+      cases hr : rest.any (fun x => x.1 == e.1)
+      · simp [pairsOf_of_not_any _ _ hr]
+      · simp [List.append_assoc]
+    · have hb : (e.1 == i) = false := by simpa using fun e' => h e'.symm
+      rw [if_neg h, hb, Bool.false_or]
+      simp
+
+theorem groupEntries_get (es : List (Int × List String)) (i : Int) :
+    Dict.get? i (groupEntries es) = if (es.any (fun e => e.1 == i)) then some (pairsOf i es) else none := by
+  have h := group_fold_get es [] i
+  unfold groupEntries
+  rw [h]
+  simp [Dict.get?]
+
+theorem insertGroup_perm (g : Int × List String) (l : List (Int × List String)) : (insertGroup g l).Perm (g :: l) := by
+  induction l with
+  | nil => exact List.Perm.refl _
+  | cons h t ih =>
+    unfold insertGroup
+    split
+    · exact List.Perm.refl _
+    · exact (List.Perm.cons h ih).trans (List.Perm.swap g h t)
+
+theorem sortGroups_perm' (l : List (Int × List String)) : (sortGroups l).Perm l := by
+  induction l with
+  | nil => exact List.Perm.refl _
+  | cons x xs ih =>
+    show (insertGroup x (sortGroups xs)).Perm (x :: xs)
+    exact (insertGroup_perm x _).trans (List.Perm.cons x ih)
+
 end Kapture.C20
